@@ -143,7 +143,9 @@ def generate(rng, tier):
             for rep in range(2):
                 ln = s.add("unwind U E %s %s %s %s" % (mode, hx(addr), petruth.script_regs(addr, regs), mid),
                            tag="proc:%s:%s:%s:%s:%s" % (f.shape, phase, mode, "warm" if rep else "fresh", "ok" if res else "fails"))
-                s.meta[ln] = {"proc": None if res is None else [res[0], res[1]], "in": regs}
+                # the progress guards of the uncacheable path (C10) refuse a step that does not advance
+                adv = res is not None and not (res[1][RSP] == regs[RSP] and res[0] == addr) and (mode == "ip" or res[1][RSP] > regs[RSP])
+                s.meta[ln] = {"proc": [res[0], res[1]] if adv else None, "in": regs}
             # the Coq specification (Pe.ms_unwind) on the same input, against the oracle
             if mode == "ip" or petruth.epilog_at(prog, rva) is None:
                 ln = s.add("msproc M %s %s %s" % (hx(rva), petruth.script_regs(addr, regs), mid))
